@@ -192,7 +192,16 @@ func history(c Case, codec compress.Codec, feat string) *kit.Failure {
 			prevEnc, prevDec = enc, dec
 		case "baddecode":
 			var bad []byte
-			switch s.Bad {
+			kind := s.Bad
+			headerSafe := c.Codec == "snappy" || c.Codec == "zstd"
+			if headerSafe && kind == "random" {
+				// snappy / zstd size their output from a length field in the first
+				// bytes before validating anything: garbage there makes the upstream
+				// decoders allocate gigabytes (memory use is not part of the property,
+				// and the sandbox has no memory limit to contain it).
+				kind = "flip"
+			}
+			switch kind {
 			case "random":
 				bad = x
 			default:
@@ -201,10 +210,17 @@ func history(c Case, codec compress.Codec, feat string) *kit.Failure {
 					continue
 				}
 				bad = append([]byte{}, enc...)
-				if s.Bad == "truncate" {
-					bad = bad[:len(bad)*s.BadAt/1000]
+				lo := 0
+				if headerSafe {
+					lo = 16
+					if len(bad) <= lo {
+						continue
+					}
+				}
+				if kind == "truncate" {
+					bad = bad[:lo+(len(bad)-lo)*s.BadAt/1000]
 				} else {
-					bad[(len(bad)-1)*s.BadAt/999] ^= 0x5A
+					bad[lo+(len(bad)-1-lo)*s.BadAt/999] ^= 0x5A
 				}
 			}
 			// the outcome (error, or garbage for formats without integrity check) is not asserted;
@@ -288,6 +304,7 @@ var spec = &kit.Spec[Case]{
 		"Oracle: Decode(Encode(x)) == x at every step, inputs unmodified, Encode's output is decoded to x by the independent decompressor of harness/ref, nothing panics, failed decodes leave no trace. Non-trivial = a failed decode precedes a round trip, or dst aliases an earlier output, or the run is concurrent.",
 	Assumptions: []string{
 		"LZ4 raw and uncompressed get no failing-decode steps: lz4.Decode never returns on invalid input (it doubles its buffer on every error), so there is no 'earlier failed call' to put in a history; the property does not speak about termination on invalid input",
+		"snappy and zstd failing decodes keep the first 16 bytes of the stream intact (length fields there make the upstream decoders allocate gigabytes before validating)",
 		"the outcome of a failing decode (error or garbage) is not asserted, only that it returns, does not panic and does not affect later calls",
 	},
 	Gen: genCase,
